@@ -1,4 +1,4 @@
-import DFV.Lemmas.Transform
+import DFV.Lemmas.Rot
 /-!
 # C12 — quarter-turn rotations move values, vectors, validity and geometry together
 
@@ -154,5 +154,53 @@ theorem unmapped_refused (f : Fld) (a1 a2 : String) (k : Int) (ref : Option (Lis
         · rw [hm]; exact ⟨.runtime, rfl⟩
         · rw [hm]
           cases (f.rDim a1).bind f.vdimIndex <;> exact ⟨.runtime, rfl⟩
+
+/-- `np.rot90` moves values (data and validity alike): entry `j` of the result is entry
+`srcIdx shape p q k j` of the source, for every integer `k`. -/
+theorem rot90_moves {α} (a : NDA α) (p q : Nat) (k : Int) (j : List Nat) :
+    (rot90 a p q k).get j = a.get (srcIdx a.shape p q k j) := rot90_get a p q k j
+
+/-- **g(R + Q(p − R)) lives where Q f(p) is put.**  For every cell `j` of the rotated mesh and every
+axis `a`, the centre of `j` is the exact quarter-turn image `R + Q(p − R)` of the centre `p` of
+the source cell `srcIdx j` whose value `np.rot90` stores at `j` (`rot90_moves`) — all integer `k`,
+all ordered axis pairs, any reference point, anisotropic counts and cell sizes, any dimension. -/
+theorem rot90_geometry (m m' : Mesh) (hm : m.Inv) (i1 i2 : Nat) (h12 : i1 ≠ i2) (h1 : i1 < m.ndim) (h2 : i2 < m.ndim)
+    (k : Int) (R : List Rat) (units : List String)
+    (hr' : m'.region = target m.region (rotCoord m.region.pmin R i1 i2 k) (rotCoord m.region.pmax R i1 i2 k) units)
+    (hn' : m'.n = rotN m.n i1 i2 k)
+    (j : List Nat) (hj : inRange m'.n j = true) (a : Nat) (ha : a < m.ndim) :
+    m'.centreAx a ((j.getD a 0 : Nat) : Int) = rotCoord (m.centre (srcIdx m.n i1 i2 k j)) R i1 i2 k a :=
+  rot90_geometry' m m' hm i1 i2 h12 h1 h2 k R units hr' hn' j hj a ha
+
+/-- the rotated field's value at cell `j`: the two mapped components of the source cell's value
+are turned by the same exact matrix, everything else is carried over -/
+theorem rotate90F_value (f g recv : Fld) (a1 a2 : String) (k : Int) (ref : Option (List Rat)) (b : Bool)
+    (h : rotate90F f a1 a2 k ref b = .ok (recv, g)) (j : List Nat) :
+    ∃ i1 i2, f.mesh.region.dim2index a1 = .ok i1 ∧ f.mesh.region.dim2index a2 = .ok i2 ∧
+      g.valid.get j = f.valid.get (srcIdx f.valid.shape i1 i2 k j) ∧
+      (f.nvdim ≤ 1 → g.data.get j = f.data.get (srcIdx f.data.shape i1 i2 k j)) ∧
+      (f.nvdim > 1 → ∃ c1 c2, (f.rDim a1).bind f.vdimIndex = some c1 ∧ (f.rDim a2).bind f.vdimIndex = some c2 ∧
+          g.data.get j = rotVec (f.data.get (srcIdx f.data.shape i1 i2 k j)) c1 c2 k) := by
+  unfold rotate90F at h
+  split at h
+  · cases h
+  · cases h
+  · cases h
+  · rename_i m' i1 i2 _ hi1 hi2
+    refine ⟨i1, i2, hi1, hi2, ?_⟩
+    split at h
+    · rename_i hv
+      split at h
+      · rename_i c1 c2 hc1 hc2
+        injection h with h; injection h with _ hg
+        subst hg
+        refine ⟨rot90_get _ _ _ _ _, fun hle => absurd hv (by omega), fun _ => ⟨c1, c2, hc1, hc2, ?_⟩⟩
+        simp only [NDA.map]
+        rw [rot90_get]
+      · cases h
+    · rename_i hv
+      injection h with h; injection h with _ hg
+      subst hg
+      exact ⟨rot90_get _ _ _ _ _, fun _ => rot90_get _ _ _ _ _, fun hgt => absurd hgt hv⟩
 
 end DFV.C12
